@@ -39,13 +39,15 @@ def _leaves(eg):
             yield x
 
 
-def scn(sym, cov, beh, cleanup, who, eager=False, native=False, return_handle=False, twice=False, T=2, J=2, sibling=False, falsy=False, precancel=None, caller_shield=False):
+def scn(sym, cov, beh, cleanup, who, eager=False, native=False, return_handle=False, twice=False, T=2, J=2, sibling=False, falsy=False, precancel=None, caller_shield=False, shielded_group=False):
     """beh: 0 started then return | 1 raise before started | 2 return w/o started | 3 started then raise | 4 block forever before started
          | 5 shielded start-up (survives cancellation), then started, then return
     cleanup (on cancellation): 0 re-raise | 1 raise E | 2 shielded sleep(1) then re-raise
     who: which scope is cancelled at the symbolic instant: 'caller' | 'group' | 'none'
     falsy: the child's exceptions have truth value False
     precancel: 'caller' | 'group': that scope is cancelled by the caller itself right BEFORE it calls start()
+    shielded_group: the group's own scope is shielded and lies inside an already cancelled scope; a blocking sibling is a member:
+        after started() the child is an ordinary member, so its failure must still cancel the group (and the sibling)
     caller_shield: the caller of start() sits in a shielded scope (it is not hit by a cancellation of the group)"""
     import anyio
     from anyio import TASK_STATUS_IGNORED, CancelScope
@@ -114,7 +116,22 @@ def scn(sym, cov, beh, cleanup, who, eager=False, native=False, return_handle=Fa
         surfaced = []
         tasks = {}
         try:
+            if shielded_group:
+                enclosing = CancelScope()
+                enclosing.__enter__()
+                enclosing.cancel()
+                st["enclosing"] = enclosing
             async with anyio.create_task_group() as tg:
+                if shielded_group:
+                    tg.cancel_scope.shield = True
+
+                    async def blocker():
+                        try:
+                            await anyio.sleep_forever()
+                        finally:
+                            st["blocker_done"] = True
+
+                    tg.start_soon(blocker)
                 with CancelScope(shield=caller_shield) as caller:
                     tasks["host"] = asyncio.current_task()
 
@@ -177,6 +194,11 @@ def scn(sym, cov, beh, cleanup, who, eager=False, native=False, return_handle=Fa
                 raise
             out["native_cancel_left_group"] = True
             asyncio.current_task().uncancel()
+        if shielded_group:
+            try:
+                st["enclosing"].__exit__(None, None, None)
+            except BaseException:
+                pass
         st["group_exited"] = True
         out["child_done_at_exit"] = st["child_done"]
         if "handle" in out:
@@ -290,6 +312,9 @@ def units(tier):
         for cleanup in (0, 1, 2):
             us.append({"name": "caller shielded, group cancelled beh=%d cleanup=%d" % (beh, cleanup), "fn": scn, "budget_s": 240,
                        "params": {"beh": beh, "cleanup": cleanup, "who": "group", "caller_shield": True, "T": 1, "J": 1}})
+    for beh in (0, 3):  # (beh=1 would legitimately leave the blocking sibling running: an early exit does not cancel the group)
+        us.append({"name": "shielded group inside a cancelled scope, blocking sibling, beh=%d" % beh, "fn": scn, "budget_s": 240,
+                   "params": {"beh": beh, "cleanup": 0, "who": "group" if beh == 0 else "none", "shielded_group": True, "T": 1, "J": 1}})
     # exceptions whose truth value is False
     for beh, cleanup, who in ((1, 0, "none"), (3, 0, "none"), (3, 1, "caller"), (0, 1, "caller"), (4, 1, "group")):
         us.append({"name": "falsy exceptions beh=%d cleanup=%d who=%s" % (beh, cleanup, who), "fn": scn, "budget_s": 240,
